@@ -24,6 +24,7 @@ func c13prop(r *simkit.Run) {
 	rt := r.T
 	maxAvg := int64(rapid.SampledFrom([]int{2, 5, 20, 200}).Draw(rt, "avg-scale"))
 	rates := drawRates(rt, true, maxAvg)
+	drawRateSource(rt)
 	nsrc := rapid.IntRange(1, 4).Draw(rt, "sources")
 	_, unfreeze := freeze(rt)
 	defer unfreeze()
